@@ -230,6 +230,16 @@ class CMapDB:
     class CMapNotFound(CMapError):
         pass
 
+    @staticmethod
+    def _is_inside(directory: str, path: str) -> bool:
+        """True if path, with symbolic links and ".." resolved, is below directory"""
+        directory = os.path.realpath(directory)
+        path = os.path.realpath(path)
+        try:
+            return path != directory and os.path.commonpath((directory, path)) == directory
+        except ValueError:  # no common path, e.g. different drives
+            return False
+
     @classmethod
     def _load_data(cls, name: str) -> Any:
         name = name.replace("\0", "")
@@ -241,6 +251,10 @@ class CMapDB:
         )
         for directory in cmap_paths:
             path = os.path.join(directory, filename)
+            # The name comes from the document: "../x" or an absolute path
+            # must not lead to a file outside the resource directory.
+            if not cls._is_inside(directory, path):
+                continue
             if os.path.exists(path):
                 gzfile = gzip.open(path)
                 try:
